@@ -256,6 +256,14 @@ def shard(prop, tier, seed, shard, nshards):
             sm["beh"]["sensitive"] = True
         r, c = schedprops.enumerate_schedules(s, check_schedule_pair, acc, 2 if tier == "quick" else 3,
                                               max_runs=500 if tier == "quick" else 20000)
+        # and the complete set of configuration variants once per micro-topology (also without input-sensitive
+        # behaviours: they would hide shapes that depend on unchanged outputs)
+        for scn_v in (s, scn):
+            for f in check_case({"scenario": copy.deepcopy(scn_v), "variants": {
+                    "picks": [1, 2, 0, 1, 2, 2, 1, 0], "starve": scn_v["sims"][0]["sid"], "perm": [2, 0, 1, 3],
+                    "mixed": [1, 0, 1]}}, acc):
+                if len(acc.failures) < 20:
+                    acc.failures.append(f)
         runs += r
         complete = complete and c
     acc.extra["enumerated_schedule_runs"] = runs
